@@ -363,7 +363,96 @@ func drawStr(c *sim.Ctx, what int) string {
 	return string(s)
 }
 
+// simC14ngSections: a capture file that a second (and third) NgWriter was
+// appended to - or several capture files concatenated. Every section has its
+// own interface list (ids start again at 0) with its own snap length and
+// timestamp offset; the reader has to give back the packets of all sections
+// in order, each with the interface index and the timestamp it was written
+// with.
+func simC14ngSections(c *sim.Ctx) {
+	f := disk.NewFile()
+	type spkt struct {
+		pkt
+		sec int
+	}
+	var pkts []spkt
+	var offs []uint64
+	nsec := 2 + c.Draw(2)
+	for sec := 0; sec < nsec; sec++ {
+		in := pcapgo.NgInterface{LinkType: layers.LinkTypeEthernet, TimestampResolution: 9, Name: fmt.Sprintf("sec%d", sec)}
+		if c.Chance(400) {
+			in.TimestampOffset = uint64(1 + c.Draw(100000))
+		}
+		if c.Chance(400) {
+			in.SnapLength = uint32(2200 + c.Draw(5000))
+		}
+		offs = append(offs, in.TimestampOffset)
+		w, err := pcapgo.NewNgWriterInterface(f, in, pcapgo.NgWriterOptions{SectionInfo: pcapgo.NgSectionInfo{Comment: fmt.Sprintf("section %d", sec)}})
+		if err != nil {
+			c.Fail("roundtrip", "write-error", "NewNgWriterInterface", "%v", err)
+		}
+		for i, n := 0, 1+c.Draw(4); i < n; i++ {
+			l := c.Draw(300)
+			p := spkt{sec: sec}
+			p.data = fillBytes(uint64(sec*1000+i*7+l+1), l)
+			p.ci = gopacket.CaptureInfo{CaptureLength: l, Length: l + c.Draw(2)*c.Draw(100), InterfaceIndex: 0,
+				Timestamp: time.Unix(int64(1_600_000_000+c.Draw(100_000_000)), int64(c.Draw(1_000_000_000))).UTC()}
+			if err := w.WritePacket(p.ci, p.data); err != nil {
+				c.Fail("roundtrip", "write-error", "WritePacket", "%v", err)
+			}
+			pkts = append(pkts, p)
+		}
+		if err := w.Flush(); err != nil {
+			c.Fail("roundtrip", "write-error", "Flush", "%v", err)
+		}
+	}
+	c.Fault("several_sections_in_one_file")
+	c.Ev("ng_sections", int64(nsec), int64(len(pkts)), int64(len(f.Data)))
+	for pass := 0; pass < 2; pass++ {
+		zero := pass == 1
+		r, err := pcapgo.NewNgReader(drawStream(c, f.Data), pcapgo.NgReaderOptions{})
+		if err != nil {
+			c.Fail("roundtrip", "open-error", "NewNgReader", "file of %d sections: %v", nsec, err)
+		}
+		for i := 0; ; i++ {
+			var d []byte
+			var ci gopacket.CaptureInfo
+			if zero {
+				d, ci, err = r.ZeroCopyReadPacketData()
+			} else {
+				d, ci, err = r.ReadPacketData()
+			}
+			if err != nil {
+				if i < len(pkts) {
+					c.Fail("roundtrip", "packet-lost", "NgReader", "packet %d of %d (section %d of %d) not returned: %v", i, len(pkts), pkts[min(i, len(pkts)-1)].sec, nsec, err)
+				}
+				if !errors.Is(err, io.EOF) {
+					c.Fail("roundtrip", "wrong-error", "NgReader", "file of %d sections ends with %v, not io.EOF", nsec, err)
+				}
+				break
+			}
+			if i >= len(pkts) {
+				c.Fail("roundtrip", "packet-invented", "NgReader", "call %d returned a packet, %d were written", i, len(pkts))
+			}
+			p := pkts[i]
+			if !bytes.Equal(d, p.data) || ci.CaptureLength != p.ci.CaptureLength || ci.Length != p.ci.Length || ci.InterfaceIndex != 0 {
+				c.Fail("roundtrip", "packet-differs", "NgReader", "packet %d (section %d): got len %d caplen %d length %d if %d; wrote len %d caplen %d length %d if 0 (zero-copy %v)", i, p.sec, len(d), ci.CaptureLength, ci.Length, ci.InterfaceIndex, len(p.data), p.ci.CaptureLength, p.ci.Length, zero)
+			}
+			if off := offs[p.sec]; off != 0 && ci.Timestamp.Equal(p.ci.Timestamp.Add(time.Duration(off)*time.Second)) {
+				c.Soft("roundtrip", "timestamp-shifted-by-if_tsoffset", "NgWriter", "packet %d of section %d: written %v, read back %v: the writer stores absolute timestamps next to if_tsoffset=%d s, which the reader adds", i, p.sec, p.ci.Timestamp, ci.Timestamp, off)
+			} else if !ci.Timestamp.Equal(p.ci.Timestamp) {
+				c.Fail("roundtrip", "timestamp-differs", "NgReader", "packet %d of section %d (timestamp offset of its interface %d s; of the sections %v): read %v, wrote %v", i, p.sec, off, offs, ci.Timestamp, p.ci.Timestamp)
+			}
+		}
+	}
+	c.Probe("several_sections_read_back")
+}
+
 func simC14ng(c *sim.Ctx) {
+	if c.Chance(80) {
+		simC14ngSections(c)
+		return
+	}
 	nif := 1 + c.Weighted(4, 2, 1)
 	mixedLT := c.Chance(300)
 	lts := []layers.LinkType{layers.LinkTypeEthernet, layers.LinkTypeRaw, layers.LinkTypeLinuxSLL}
